@@ -17,9 +17,16 @@ pub open spec fn fv_map(v: FV, f: spec_fn(real) -> int) -> FV {
 
 // ---- constants: Verus has no support for the associated constants f64::INFINITY / NEG_INFINITY / NAN;
 //      the extractor substitutes these prelude functions for them (rule recorded per item) ----
-#[verifier::external_body] pub fn f64_infinity() -> (r: f64) ensures fv(r) == FV::PosInf { f64::INFINITY }
-#[verifier::external_body] pub fn f64_neg_infinity() -> (r: f64) ensures fv(r) == FV::NegInf { f64::NEG_INFINITY }
-#[verifier::external_body] pub fn f64_nan() -> (r: f64) ensures fv(r) == FV::NaN { f64::NAN }
+pub uninterp spec fn F_INF() -> f64;
+pub uninterp spec fn F_NEG_INF() -> f64;
+pub uninterp spec fn F_NAN() -> f64;
+pub broadcast axiom fn f_const_inf() ensures fv(#[trigger] F_INF()) == FV::PosInf;
+pub broadcast axiom fn f_const_neg_inf() ensures fv(#[trigger] F_NEG_INF()) == FV::NegInf;
+pub broadcast axiom fn f_const_nan() ensures fv(#[trigger] F_NAN()) == FV::NaN;
+pub broadcast group f_consts { f_const_inf, f_const_neg_inf, f_const_nan }
+#[verifier::external_body] pub fn f64_infinity() -> (r: f64) ensures r == F_INF() { f64::INFINITY }
+#[verifier::external_body] pub fn f64_neg_infinity() -> (r: f64) ensures r == F_NEG_INF() { f64::NEG_INFINITY }
+#[verifier::external_body] pub fn f64_nan() -> (r: f64) ensures r == F_NAN() { f64::NAN }
 pub broadcast axiom fn f64_zero_literal() ensures #[trigger] fv(0.0f64) == FV::Fin(0real);
 // unary minus on floats is not supported by Verus either; substituted by this function (exact in IEEE-754)
 pub uninterp spec fn f_neg(a: f64) -> f64;
